@@ -2,7 +2,9 @@ package rrsim
 
 import (
 	"fmt"
+	"github.com/vulcand/oxy/v2/roundrobin"
 	"net/http"
+	"net/url"
 	"sort"
 	"testing"
 
@@ -143,6 +145,7 @@ func c01prop(r *simkit.Run) {
 	var sels []selection
 	errs := 0
 	pinned, pinnedWrong := 0, 0
+	refusedCalls, refusedAccepted := 0, 0
 	if sum == 0 {
 		// all zero (or empty): every selection is an error, never a URL
 		for i := 0; i < 6; i++ {
@@ -188,8 +191,31 @@ func c01prop(r *simkit.Run) {
 				}
 			}
 		}
+		// every few selections this caller also makes an administration call that is refused (a negative weight for a
+		// member or for a stranger, the removal of a stranger): the pool is not changed by it and the rotation goes on
+		refuseEvery := rapid.IntRange(0, 4).Draw(rt, "refused-call-every")
+		refuseKind := rapid.IntRange(0, 2).Draw(rt, "refused-call-kind")
+		var member *url.URL
+		if len(w.model.m) > 0 {
+			member = mustURL(w.model.m[rapid.IntRange(0, len(w.model.m)-1).Draw(rt, "refused-call-member")].str)
+		}
 		w.sim.Spawn(fmt.Sprintf("caller%d", c), func() {
 			for i := 0; i < cnt; i++ {
+				if refuseEvery > 0 && i%refuseEvery == refuseEvery-1 {
+					var err error
+					switch {
+					case refuseKind == 0 && member != nil:
+						err = w.admin().UpsertServer(member, roundrobin.Weight(-1))
+					case refuseKind == 1:
+						err = w.admin().UpsertServer(mustURL("http://stranger.invalid"), roundrobin.Weight(-1))
+					default:
+						err = w.admin().RemoveServer(mustURL("http://stranger.invalid"))
+					}
+					refusedCalls++
+					if err == nil {
+						refusedAccepted++
+					}
+				}
 				if pinEvery > 0 && pinTo != "" && i%pinEvery == 0 {
 					for k := 0; k < pinEvery; k++ {
 						op := &rrOp{kind: "serve", sticky: true}
@@ -229,6 +255,10 @@ func c01prop(r *simkit.Run) {
 	w.sim.MaxStep = 400000
 	w.sim.Quiesce()
 	w.check()
+	if refusedAccepted > 0 {
+		r.Fail("refused-call-accepted", "%d of %d administration calls that must be refused (negative weight, removal of a stranger) returned no error", refusedAccepted, refusedCalls)
+	}
+	r.ProbeN("refused-administration-calls-during-measurement", refusedCalls)
 	if pinnedWrong > 0 {
 		r.Fail("affinity-lost", "%d of %d requests with a valid affinity cookie did not reach their server", pinnedWrong, pinned)
 	}
